@@ -80,14 +80,18 @@ pub struct Content {
     /// 0 = plain call; k>0 = streaming handler writing the string in k pieces
     #[serde(default, skip_serializing_if = "is_zero")]
     pub stream: u8,
+    /// the streaming handler returns Err after writing its pieces (a failure *during*
+    /// serialisation of the token, after the content handlers have returned)
+    #[serde(default, skip_serializing_if = "is_false")]
+    pub fail_stream: bool,
 }
 
 impl Content {
     pub fn text(s: &str) -> Self {
-        Content { s: s.into(), html: false, stream: 0 }
+        Content { s: s.into(), html: false, stream: 0, fail_stream: false }
     }
     pub fn html(s: &str) -> Self {
-        Content { s: s.into(), html: true, stream: 0 }
+        Content { s: s.into(), html: true, stream: 0, fail_stream: false }
     }
 }
 
@@ -159,6 +163,78 @@ pub enum HandlerSpec {
     Comment { sel: Option<String>, ops: Vec<CmOp> },
     Doctype { remove: bool },
     End { ops: Vec<Content> },
+}
+
+fn strip_fail_stream(v: &mut serde_json::Value) -> bool {
+    let mut any = false;
+    match v {
+        serde_json::Value::Object(m) => {
+            if m.remove("fail_stream").is_some() {
+                any = true;
+            }
+            for (_, x) in m.iter_mut() {
+                any |= strip_fail_stream(x);
+            }
+        }
+        serde_json::Value::Array(a) => {
+            for x in a {
+                any |= strip_fail_stream(x);
+            }
+        }
+        _ => {}
+    }
+    any
+}
+
+fn visit_contents(v: &mut serde_json::Value, f: &mut dyn FnMut(&mut serde_json::Map<String, serde_json::Value>)) {
+    match v {
+        serde_json::Value::Object(m) => {
+            if m.contains_key("s") && m.get("s").is_some_and(|x| x.is_string()) {
+                f(m);
+            }
+            for (_, x) in m.iter_mut() {
+                visit_contents(x, f);
+            }
+        }
+        serde_json::Value::Array(a) => {
+            for x in a {
+                visit_contents(x, f);
+            }
+        }
+        _ => {}
+    }
+}
+
+/// Number of `Content` values in a handler list.
+pub fn count_contents(hs: &[HandlerSpec]) -> usize {
+    let Ok(mut v) = serde_json::to_value(hs) else { return 0 };
+    let mut n = 0;
+    visit_contents(&mut v, &mut |_| n += 1);
+    n
+}
+
+/// Turn the `k`-th `Content` (traversal order) into a streaming handler that fails after
+/// writing its `pieces` pieces.
+pub fn with_stream_fault(hs: &[HandlerSpec], k: usize, pieces: u8) -> Option<Vec<HandlerSpec>> {
+    let mut v = serde_json::to_value(hs).ok()?;
+    let mut n = 0;
+    visit_contents(&mut v, &mut |m| {
+        if n == k {
+            m.insert("stream".into(), serde_json::Value::from(pieces.max(1)));
+            m.insert("fail_stream".into(), serde_json::Value::Bool(true));
+        }
+        n += 1;
+    });
+    serde_json::from_value(v).ok()
+}
+
+/// Handler list with every streaming-handler failure switched off; `None` when there was none.
+pub fn clear_stream_faults(hs: &[HandlerSpec]) -> Option<Vec<HandlerSpec>> {
+    let mut v = serde_json::to_value(hs).ok()?;
+    if !strip_fail_stream(&mut v) {
+        return None;
+    }
+    serde_json::from_value(v).ok()
 }
 
 impl HandlerSpec {
